@@ -144,7 +144,7 @@ pub fn eval_entry(e: &Entry, f: usize, s: &str) -> Outcome {
 // ---------------------------------------------------------------------------------------------
 // requests and their faults
 
-pub const FAULT_NAMES: [&str; 27] = [
+pub const FAULT_NAMES: [&str; 28] = [
     "truncate",
     "replace_char",
     "delete_char",
@@ -172,6 +172,7 @@ pub const FAULT_NAMES: [&str; 27] = [
     "dangling_copula_prefix",
     "deep_nesting",
     "empty_container",
+    "long_input",
 ];
 
 #[derive(Clone, Debug)]
@@ -287,7 +288,7 @@ fn gen_request(ch: &mut Choices, gp: &GenParams, fault_rate: u32, f: usize) -> R
     let a_punct = || it.punct.clone().unwrap_or_else(|| fmt.sentence.punctuation_judgement.to_string());
     let a_stamp = || it.stamp.clone().filter(|s| !s.is_empty()).unwrap_or_else(|| fmt.format_stamp(&Stamp::Present));
     // item-level and character-level faults; index 0 (truncate) is the "simplest"
-    let which = ch.weighted(&[14, 8, 6, 8, 9, 7, 5, 5, 5, 4, 4, 7, 5, 4, 3, 3, 1, 1, 3, 3, 2, 3, 6, 5, 5, 3, 4]);
+    let which = ch.weighted(&[14, 8, 6, 8, 9, 7, 5, 5, 5, 4, 4, 7, 5, 4, 3, 3, 1, 1, 3, 3, 2, 3, 6, 5, 5, 3, 4, 2]);
     faults.push(which);
     let text = match which {
         0 => {
@@ -419,6 +420,28 @@ fn gen_request(ch: &mut Choices, gp: &GenParams, fault_rate: u32, f: usize) -> R
                 format!("{head}{prefix}")
             }
         }
+        27 => {
+            // an input hundreds or thousands of characters long (a compound with 100-400
+            // components), complete or left partial in one of the usual ways
+            let c = &fmt.compound;
+            let n = [80usize, 200, 350][ch.weighted(&[50, 35, 15])];
+            let comps: Vec<String> = (0..n).map(|i| format!("a{i}")).collect();
+            let conn = [c.connecter_conjunction, c.connecter_product, c.connecter_intersection_extension][ch.choose(3) as usize];
+            let sep = format!("{}{}", c.separator, fmt.space.format_terms);
+            let long_term = format!("{}{}{}{}{}", c.brackets.0, conn, sep, comps.join(&sep), c.brackets.1);
+            match ch.choose(5) {
+                0 => join(&[&it.budget, &Some(long_term), &it.punct, &it.stamp, &it.truth]),
+                1 => join(&[&Some(a_budget(ch)), &Some(long_term)]),
+                2 => join(&[&Some(long_term), &Some(a_truth(ch))]),
+                3 => {
+                    // malformed at the very end
+                    let mut t = long_term;
+                    t.pop();
+                    join(&[&it.budget, &Some(t), &it.punct])
+                }
+                _ => join(&[&it.budget, &Some(long_term), &it.punct.clone().or_else(|| Some(a_punct())), &it.stamp, &Some(format!("{}2{}", tb.0, tb.1))]),
+            }
+        }
         26 => {
             // a container with nothing in it where the term should be (or inside the term)
             let c = &fmt.compound;
@@ -466,7 +489,7 @@ enum Op {
 
 #[derive(Default, Clone)]
 pub struct SessionsRunStats {
-    pub faults: [u64; 27],
+    pub faults: [u64; 28],
     pub requests: u64,
     pub requests_faulty: u64,
     pub ops: u64,
